@@ -51,6 +51,7 @@ Step(e) ==
     LET a == e.act IN
     \/ a.op = "AddObj" /\ AddObj(a.s, a.x)
     \/ a.op = "AddMany" /\ AddMany(a.s, ToSet(a.xs))
+    \/ a.op = "IndexElsewhere" /\ IndexElsewhere(ToSet(a.xs))
     \/ a.op = "Tamper" /\ Tamper(a.s, a.o)
     \/ a.op = "ExtDelete" /\ ExtDelete(a.s, a.o)
     \/ a.op = "Check" /\ Check(a.s, a.o, a.ro)
